@@ -316,6 +316,25 @@ func c04Gen(g *core.Gen) {
 			}
 		}
 	}
+	// long runs of lost volumes: with 20, 60 and 99 volumes, every run [a, a+n) of deleted volumes for run lengths
+	// 9..12, 30 and all-but-three, at the start, in the middle and at the end - the survivors lie behind (or before) a gap
+	for _, v := range []int{20, 60, 99} {
+		many := scen.P1Config{Sizes: []int{5, 8, 2}, Volumes: v}
+		for _, n := range []int{9, 10, 11, 12, 30, v - 3} {
+			if n >= v {
+				continue
+			}
+			for _, a := range []int{1, (v - n) / 2, v - n + 1} {
+				var del []int
+				for k := a; k < a+n; k++ {
+					del = append(del, k)
+				}
+				for _, fd := range [][]int{{1, 0, 0}, {1, 1, 0}, {1, 1, 1}} {
+					g.Emit(&p1Case{Cfg: many, FileDmg: fd, VolDel: del})
+				}
+			}
+		}
+	}
 	nf := 20
 	if g.Thorough() {
 		nf = 40
